@@ -1,6 +1,1529 @@
-//! C02 — stub (monitor not built yet).
-use crate::core::Ctx;
+//! C02 — RPKI signed objects are accepted iff digest, signature, sid, EE
+//! certificate and resource coverage all hold and the CRL callback agrees.
+//!
+//! Objects are assembled by the independent CMS assembler (`c02_cms`); the
+//! embedded EE certificate is issued with the library's `TbsCert` under the
+//! PoolSigner (certificate validation itself is C01's subject). The oracle is
+//! the conjunction in the property statement, evaluated from the parameters
+//! the harness chose — it knows which single thing it broke.
+
+use crate::c02_cms::{self as cms, Ber, Pfx, RoaFamily, SignedData};
+use crate::core::{hex, Ctx, Rng, Stage, Tier};
+use crate::der;
+use crate::keys::{sha256, PoolSigner};
+use crate::model::IntervalSet;
+use rpki::repository::cert::{Cert, KeyUsage, Overclaim, ResourceCert, TbsCert};
+use rpki::repository::error::{ValidationError, VerificationError};
+use rpki::repository::resources::{Addr, Asn};
+use rpki::repository::sigobj::SignedObject;
+use rpki::repository::tal::TalInfo;
+use rpki::repository::x509::{Serial, Time, Validity};
+use rpki::repository::{Aspa, Manifest, Roa};
+use rpki::uri;
+use serde_json::{json, Value};
+use std::cell::Cell;
+use std::collections::HashMap;
+use std::rc::Rc;
+use std::str::FromStr;
+
+//------------ small helpers -------------------------------------------------
+
+pub fn time(t: i64) -> Time {
+    Time::new(chrono::DateTime::from_timestamp(t, 0).expect("timestamp in range"))
+}
+
+const PAD96: u128 = (1u128 << 96) - 1;
+
+fn a4(a: u8, b: u8, c: u8, d: u8) -> u32 {
+    u32::from_be_bytes([a, b, c, d])
+}
+
+/// IPv4 range in the library's 128-bit model.
+fn v4r(lo: u32, hi: u32) -> (u128, u128) {
+    ((lo as u128) << 96, ((hi as u128) << 96) | PAD96)
+}
+
+fn v6p(addr: u128, len: u8) -> (u128, u128) {
+    let p = Pfx::v6(addr, len);
+    (p.min(), p.max())
+}
+
+fn asr(lo: u32, hi: u32) -> (u128, u128) {
+    (lo as u128, hi as u128)
+}
+
+const V6_DOC: u128 = 0x2001_0db8_0000_0000_0000_0000_0000_0000;
+
+//------------ EE certificates -----------------------------------------------
+
+#[derive(Clone, Debug, PartialEq)]
+enum Res {
+    Missing,
+    Inherit,
+    Blocks(Vec<(u128, u128)>),
+}
+
+#[derive(Clone, Debug)]
+struct EeSpec {
+    /// pool key of the EE certificate
+    key: usize,
+    /// pool key that signs the certificate (0 = the issuer)
+    signer: usize,
+    /// pool key whose identifier goes into the AKI (0 = the issuer)
+    aki: usize,
+    trim: bool,
+    v4: Res,
+    v6: Res,
+    asn: Res,
+    nb: i64,
+    na: i64,
+}
+
+const T_NB: i64 = 1_704_067_200; // 2024-01-01T00:00:00Z
+const T_NA: i64 = 1_811_807_999; // 2027-05-31T23:59:59Z
+const T_IN: i64 = 1_750_000_000; // 2025-06-15
+
+struct World {
+    pool: PoolSigner,
+    ta: ResourceCert,
+    ta_v4: IntervalSet,
+    ta_v6: IntervalSet,
+    ta_as: IntervalSet,
+    /// wall clock (whole seconds) — only used to place the validity of EE
+    /// certificates of ROA / ASPA objects, whose `process` reads the clock
+    now: i64,
+    cache: HashMap<String, Rc<Vec<u8>>>,
+    serial: u64,
+    uri: uri::Rsync,
+    ee_built: u64,
+}
+
+fn apply_res_ip(tbs: &mut TbsCert, v4: bool, r: &Res) {
+    match r {
+        Res::Missing => {}
+        Res::Inherit => {
+            if v4 {
+                tbs.set_v4_resources_inherit()
+            } else {
+                tbs.set_v6_resources_inherit()
+            }
+        }
+        Res::Blocks(b) => {
+            let f = |bb: &mut rpki::repository::resources::IpBlocksBuilder| {
+                for (lo, hi) in b {
+                    bb.push((Addr::from_bits(*lo), Addr::from_bits(*hi)));
+                }
+            };
+            if v4 {
+                tbs.build_v4_resource_blocks(f)
+            } else {
+                tbs.build_v6_resource_blocks(f)
+            }
+        }
+    }
+}
+
+fn apply_res_as(tbs: &mut TbsCert, r: &Res) {
+    match r {
+        Res::Missing => {}
+        Res::Inherit => tbs.set_as_resources_inherit(),
+        Res::Blocks(b) => tbs.build_as_resource_blocks(|bb| {
+            for (lo, hi) in b {
+                if lo == hi {
+                    bb.push(Asn::from_u32(*lo as u32));
+                } else {
+                    bb.push((Asn::from_u32(*lo as u32), Asn::from_u32(*hi as u32)));
+                }
+            }
+        }),
+    }
+}
+
+impl World {
+    fn new() -> World {
+        let pool = PoolSigner::new(6);
+        let now = Time::now().timestamp();
+        let uri = uri::Rsync::from_str("rsync://verif.example/repo/obj").unwrap();
+        let ta_v4 = vec![v4r(a4(10, 0, 0, 0), a4(10, 127, 255, 255)), v4r(a4(172, 16, 0, 0), a4(172, 31, 255, 255)), v4r(a4(192, 0, 2, 0), a4(192, 0, 2, 255))];
+        let ta_v6 = vec![v6p(V6_DOC, 32), v6p(0x2a00u128 << 112, 12)];
+        let ta_as = vec![asr(64496, 64511), asr(65536, 65551), asr(4_200_000_000, 4_200_000_000)];
+        let key = pool.info(0);
+        let mut tbs = TbsCert::new(
+            Serial::from(1u64),
+            key.to_subject_name(),
+            Validity::new(time(1_577_836_800), time(2_366_841_600)), // 2020 .. 2045
+            None,
+            key,
+            KeyUsage::Ca,
+            Overclaim::Refuse,
+        );
+        tbs.set_basic_ca(Some(true));
+        tbs.set_ca_repository(Some(uri.clone()));
+        tbs.set_rpki_manifest(Some(uri.clone()));
+        apply_res_ip(&mut tbs, true, &Res::Blocks(ta_v4.clone()));
+        apply_res_ip(&mut tbs, false, &Res::Blocks(ta_v6.clone()));
+        apply_res_as(&mut tbs, &Res::Blocks(ta_as.clone()));
+        let der = tbs.into_cert(&pool, &0).expect("sign ta").to_captured().into_bytes();
+        let ta = Cert::decode(der)
+            .expect("ta decodes")
+            .validate_ta_at(TalInfo::from_name("verif".into()).into_arc(), true, time(now))
+            .expect("ta validates");
+        World {
+            pool,
+            ta,
+            ta_v4: IntervalSet::from_ranges(&ta_v4),
+            ta_v6: IntervalSet::from_ranges(&ta_v6),
+            ta_as: IntervalSet::from_ranges(&ta_as),
+            now,
+            cache: HashMap::new(),
+            serial: 100,
+            uri,
+            ee_built: 0,
+        }
+    }
+
+    /// DER of the EE certificate described by `spec` (library builder, cached).
+    fn ee(&mut self, spec: &EeSpec) -> Rc<Vec<u8>> {
+        let k = format!("{:?}", spec);
+        if let Some(c) = self.cache.get(&k) {
+            return c.clone();
+        }
+        self.serial += 1;
+        let issuer_name = self.pool.info(spec.aki).to_subject_name();
+        let mut tbs = TbsCert::new(
+            Serial::from(self.serial),
+            issuer_name,
+            Validity::new(time(spec.nb), time(spec.na)),
+            None,
+            self.pool.info(spec.key),
+            KeyUsage::Ee,
+            if spec.trim { Overclaim::Trim } else { Overclaim::Refuse },
+        );
+        tbs.set_authority_key_identifier(Some(self.pool.info(spec.aki).key_identifier()));
+        tbs.set_crl_uri(Some(self.uri.clone()));
+        tbs.set_ca_issuer(Some(self.uri.clone()));
+        tbs.set_signed_object(Some(self.uri.clone()));
+        apply_res_ip(&mut tbs, true, &spec.v4);
+        apply_res_ip(&mut tbs, false, &spec.v6);
+        apply_res_as(&mut tbs, &spec.asn);
+        let der = tbs.into_cert(&self.pool, &spec.signer).expect("sign ee").to_captured().into_bytes().to_vec();
+        self.ee_built += 1;
+        let rc = Rc::new(der);
+        self.cache.insert(k, rc.clone());
+        rc
+    }
+
+    fn validated_one(issuer: &IntervalSet, r: &Res, trim: bool) -> Option<IntervalSet> {
+        match r {
+            Res::Missing => Some(IntervalSet::empty()),
+            Res::Inherit => Some(issuer.clone()),
+            Res::Blocks(b) => {
+                let claim = IntervalSet::from_ranges(b);
+                if trim {
+                    Some(claim.intersection(issuer))
+                } else if claim.is_subset_of(issuer) {
+                    Some(claim)
+                } else {
+                    None
+                }
+            }
+        }
+    }
+
+    /// Model of C01's result for the EE: validated (v4, v6, as) or None when
+    /// the certificate overclaims under the Refuse policy.
+    fn validated(&self, s: &EeSpec) -> Option<(IntervalSet, IntervalSet, IntervalSet)> {
+        Some((
+            Self::validated_one(&self.ta_v4, &s.v4, s.trim)?,
+            Self::validated_one(&self.ta_v6, &s.v6, s.trim)?,
+            Self::validated_one(&self.ta_as, &s.asn, s.trim)?,
+        ))
+    }
+
+    fn ee_violation(&self, s: &EeSpec, t: i64) -> Option<&'static str> {
+        if s.signer != 0 && s.aki != 0 {
+            Some("ee-wrong-issuer")
+        } else if s.signer != 0 {
+            Some("ee-signature-by-other-key")
+        } else if s.aki != 0 {
+            Some("ee-aki-other-key")
+        } else if t < s.nb {
+            Some("ee-not-yet-valid")
+        } else if t > s.na {
+            Some("ee-expired")
+        } else if self.validated(s).is_none() {
+            Some("ee-overclaim-refuse")
+        } else {
+            None
+        }
+    }
+}
+
+//------------ cases ---------------------------------------------------------
+
+#[derive(Clone, Copy, Debug, PartialEq, Eq)]
+enum Kind {
+    Roa,
+    Aspa,
+    Manifest,
+    Generic,
+}
+
+impl Kind {
+    fn name(self) -> &'static str {
+        match self {
+            Kind::Roa => "roa",
+            Kind::Aspa => "aspa",
+            Kind::Manifest => "manifest",
+            Kind::Generic => "generic",
+        }
+    }
+}
+
+#[derive(Clone, Copy, Debug, PartialEq, Eq)]
+enum Tamper {
+    None,
+    // --- violations of a condition in the statement: rejection asserted
+    DigestOfOtherContent,
+    DigestBitFlip,
+    DigestTruncated,
+    SigOtherKey,
+    SigCtx0,
+    SigOverContent,
+    SidIssuerSki,
+    SidOtherKeySki,
+    SidBitFlip,
+    DupDigestWrongFirst,
+    DupDigestWrongSecond,
+    MissingDigest,
+    // --- things the statement does not decide: outcome only recorded
+    DupDigestSame,
+    DupContentType,
+    DupSigningTime,
+    MissingContentType,
+    MissingSigningTime,
+    ExtraBinarySigningTime,
+    ExtraUnknownAttr,
+    CtAttrMismatch,
+    DigestAlgWithNull,
+    SigAlgSha256WithRsa,
+    SigningTimeGeneralized,
+}
+
+const ASSERTED_TAMPERS: &[Tamper] = &[
+    Tamper::DigestOfOtherContent,
+    Tamper::DigestBitFlip,
+    Tamper::DigestTruncated,
+    Tamper::SigOtherKey,
+    Tamper::SigCtx0,
+    Tamper::SigOverContent,
+    Tamper::SidIssuerSki,
+    Tamper::SidOtherKeySki,
+    Tamper::SidBitFlip,
+    Tamper::DupDigestWrongFirst,
+    Tamper::DupDigestWrongSecond,
+    Tamper::MissingDigest,
+];
+
+const RECORDED_TAMPERS: &[Tamper] = &[
+    Tamper::DupDigestSame,
+    Tamper::DupContentType,
+    Tamper::DupSigningTime,
+    Tamper::MissingContentType,
+    Tamper::MissingSigningTime,
+    Tamper::ExtraBinarySigningTime,
+    Tamper::ExtraUnknownAttr,
+    Tamper::CtAttrMismatch,
+    Tamper::DigestAlgWithNull,
+    Tamper::SigAlgSha256WithRsa,
+    Tamper::SigningTimeGeneralized,
+];
+
+#[derive(Clone, Copy, Debug, PartialEq, Eq)]
+enum Eval {
+    /// `validate_at(issuer, strict, t)` (generic objects and manifests)
+    At(i64),
+    /// `process(issuer, strict, callback)`; reads the wall clock inside the library
+    Process { crl_ok: bool },
+}
+
+#[derive(Clone, Debug)]
+struct Case {
+    kind: Kind,
+    ee: EeSpec,
+    ct: Vec<u8>,
+    content: Vec<u8>,
+    /// coverage condition of the statement (true where it does not apply)
+    cov_ok: bool,
+    /// label of the coverage relation
+    rel: String,
+    /// emitted attribute order as a permutation of (content-type, message-digest, signing-time); None = DER order
+    order: Option<Vec<usize>>,
+    /// with an unsorted order: sign the DER (sorted) encoding instead of the emitted one
+    sign_der: bool,
+    tamper: Tamper,
+    ber: Ber,
+    strict: bool,
+    eval: Eval,
+    /// false: the statement leaves the outcome open, record only
+    assert_outcome: bool,
+    why_recorded: &'static str,
+}
+
+impl Case {
+    fn new(kind: Kind, ee: EeSpec, ct: Vec<u8>, content: Vec<u8>, eval: Eval) -> Case {
+        Case {
+            kind,
+            ee,
+            ct,
+            content,
+            cov_ok: true,
+            rel: "n/a".into(),
+            order: None,
+            sign_der: false,
+            tamper: Tamper::None,
+            ber: Ber::default(),
+            strict: true,
+            eval,
+            assert_outcome: true,
+            why_recorded: "",
+        }
+    }
+}
+
+/// The assembled object plus what the harness knows about it.
+struct Built {
+    bytes: Vec<u8>,
+    attrs_len: usize,
+    sorted: bool,
+}
+
+fn build(w: &mut World, c: &Case) -> Built {
+    let ee_der = w.ee(&c.ee);
+    let key = c.ee.key;
+    let other_key = if key == 3 { 4 } else { 3 };
+    let good_digest = sha256(&c.content);
+    let digest: Vec<u8> = match c.tamper {
+        Tamper::DigestOfOtherContent => {
+            let mut other = c.content.clone();
+            other.push(0);
+            sha256(&other)
+        }
+        Tamper::DigestBitFlip => {
+            let mut d = good_digest.clone();
+            d[17] ^= 0x04;
+            d
+        }
+        Tamper::DigestTruncated => good_digest[..31].to_vec(),
+        _ => good_digest.clone(),
+    };
+    let mut wrong = good_digest.clone();
+    wrong[0] ^= 0x80;
+    let ct_attr = match c.tamper {
+        Tamper::CtAttrMismatch => cms::attr_content_type(&der::oid(der::OID_CT_GHOSTBUSTERS)),
+        _ => cms::attr_content_type(&c.ct),
+    };
+    let st = match c.tamper {
+        Tamper::SigningTimeGeneralized => cms::attr_signing_time_general(T_IN),
+        _ => cms::attr_signing_time(T_IN),
+    };
+    let base = [ct_attr.clone(), cms::attr_message_digest(&digest), st.clone()];
+    let mut attrs: Vec<Vec<u8>> = match &c.order {
+        None => cms::sort_attrs(&base),
+        Some(p) => p.iter().map(|i| base[*i].clone()).collect(),
+    };
+    let resort = c.order.is_none();
+    match c.tamper {
+        Tamper::DupDigestWrongFirst => {
+            let pos = attrs.iter().position(|a| *a == base[1]).unwrap();
+            attrs.insert(pos, cms::attr_message_digest(&wrong));
+        }
+        Tamper::DupDigestWrongSecond => {
+            let pos = attrs.iter().position(|a| *a == base[1]).unwrap();
+            attrs.insert(pos + 1, cms::attr_message_digest(&wrong));
+        }
+        Tamper::DupDigestSame => attrs.push(base[1].clone()),
+        Tamper::DupContentType => attrs.push(base[0].clone()),
+        Tamper::DupSigningTime => attrs.push(base[2].clone()),
+        Tamper::MissingDigest => attrs.retain(|a| *a != base[1]),
+        Tamper::MissingContentType => attrs.retain(|a| *a != base[0]),
+        Tamper::MissingSigningTime => attrs.retain(|a| *a != base[2]),
+        Tamper::ExtraBinarySigningTime => attrs.push(cms::attr_binary_signing_time(T_IN)),
+        Tamper::ExtraUnknownAttr => attrs.push(cms::attr_extra(7, 12)),
+        _ => {}
+    }
+    if resort && !matches!(c.tamper, Tamper::DupDigestWrongFirst | Tamper::DupDigestWrongSecond) {
+        attrs = cms::sort_attrs(&attrs);
+    }
+    let sorted = cms::attrs_sorted(&attrs);
+    let to_sign = if c.sign_der { cms::sort_attrs(&attrs) } else { attrs.clone() };
+    let signature = match c.tamper {
+        Tamper::SigOtherKey => w.pool.key(other_key).sign_raw(&cms::sig_input_set(&to_sign)),
+        Tamper::SigCtx0 => w.pool.key(key).sign_raw(&cms::sig_input_ctx0(&to_sign)),
+        Tamper::SigOverContent => w.pool.key(key).sign_raw(&c.content),
+        _ => w.pool.key(key).sign_raw(&cms::sig_input_set(&to_sign)),
+    };
+    let ski = cms::ski_of_spki(&w.pool.key(key).spki);
+    let sid = match c.tamper {
+        Tamper::SidIssuerSki => cms::ski_of_spki(&w.pool.key(0).spki),
+        Tamper::SidOtherKeySki => cms::ski_of_spki(&w.pool.key(other_key).spki),
+        Tamper::SidBitFlip => {
+            let mut s = ski.clone();
+            s[19] ^= 1;
+            s
+        }
+        _ => ski,
+    };
+    let attrs_len = cms::attrs_len(&attrs);
+    let mut sd = SignedData::rpki(c.ct.clone(), c.content.clone(), ee_der.to_vec(), sid, attrs, signature);
+    if c.tamper == Tamper::DigestAlgWithNull {
+        sd.digest_algs = vec![cms::alg_id(der::OID_SHA256, true)];
+        sd.signers[0].digest_alg = cms::alg_id(der::OID_SHA256, true);
+    }
+    if c.tamper == Tamper::SigAlgSha256WithRsa {
+        sd.signers[0].sig_alg = cms::alg_sha256_with_rsa();
+    }
+    sd.ber = c.ber.clone();
+    Built { bytes: sd.encode(), attrs_len, sorted }
+}
+
+#[derive(Debug)]
+struct Seen {
+    decoded: bool,
+    accepted: bool,
+    err: String,
+    crl_calls: u32,
+    crl_cert_is_ee: bool,
+}
+
+/// Runs the library on `bytes` the way a relying party does.
+fn evaluate(ctx: &mut Ctx, w: &World, kind: Kind, bytes: &[u8], strict: bool, eval: Eval, ee: &EeSpec) -> Option<Seen> {
+    // what identifies the embedded EE certificate through accessors (re-encoding a
+    // certificate that was decoded in relaxed mode is not possible, see report)
+    let ee_ski = cms::ski_of_spki(&w.pool.key(ee.key).spki);
+    let (ee_nb, ee_na) = (ee.nb, ee.na);
+    let calls = Cell::new(0u32);
+    let is_ee = Cell::new(false);
+    let ta = &w.ta;
+    let res: (bool, Result<(), String>) = ctx.no_panic(
+        "decode-validate",
+        || json!({"kind": kind.name(), "strict": strict, "object": hex(bytes)}),
+        || {
+            let cb = |c: &Cert| -> Result<(), ValidationError> {
+                calls.set(calls.get() + 1);
+                is_ee.set(
+                    c.subject_key_identifier().as_slice() == &ee_ski[..]
+                        && c.validity().not_before().timestamp() == ee_nb
+                        && c.validity().not_after().timestamp() == ee_na,
+                );
+                match eval {
+                    Eval::Process { crl_ok: false } => Err(VerificationError::new("harness CRL callback: revoked").into()),
+                    _ => Ok(()),
+                }
+            };
+            let data = bytes::Bytes::copy_from_slice(bytes);
+            match kind {
+                Kind::Roa => match Roa::decode(data, strict) {
+                    Err(e) => (false, Err(e.to_string())),
+                    Ok(o) => (true, o.process(ta, strict, cb).map(|_| ()).map_err(|e| e.to_string())),
+                },
+                Kind::Aspa => match Aspa::decode(data, strict) {
+                    Err(e) => (false, Err(e.to_string())),
+                    Ok(o) => (true, o.process(ta, strict, cb).map(|_| ()).map_err(|e| e.to_string())),
+                },
+                Kind::Manifest => match Manifest::decode(data, strict) {
+                    Err(e) => (false, Err(e.to_string())),
+                    Ok(o) => {
+                        let t = match eval {
+                            Eval::At(t) => t,
+                            _ => T_IN,
+                        };
+                        (true, o.validate_at(ta, strict, time(t)).map(|_| ()).map_err(|e| e.to_string()))
+                    }
+                },
+                Kind::Generic => match SignedObject::decode(data, strict) {
+                    Err(e) => (false, Err(e.to_string())),
+                    Ok(o) => match eval {
+                        Eval::At(t) => (true, o.validate_at(ta, strict, time(t)).map(|_| ()).map_err(|e| e.to_string())),
+                        Eval::Process { .. } => (true, o.process(ta, strict, cb).map(|_| ()).map_err(|e| e.to_string())),
+                    },
+                },
+            }
+        },
+    )?;
+    ctx.drain_chain_hook(|| json!({"kind": kind.name(), "object": hex(bytes)}));
+    Some(Seen {
+        decoded: res.0,
+        accepted: res.1.is_ok(),
+        err: res.1.err().unwrap_or_default(),
+        crl_calls: calls.get(),
+        crl_cert_is_ee: is_ee.get(),
+    })
+}
+
+fn violation_category(v: &str) -> &'static str {
+    if v.starts_with("Digest") || v.starts_with("DupDigest") || v.starts_with("MissingDigest") {
+        "digest"
+    } else if v.starts_with("Sig") {
+        "signature"
+    } else if v.starts_with("Sid") {
+        "sid"
+    } else if v.starts_with("ee-") {
+        "ee-certificate"
+    } else if v.starts_with("uncovered") {
+        "coverage"
+    } else if v.starts_with("crl") {
+        "crl-callback"
+    } else {
+        "other"
+    }
+}
+
+fn order_label(o: &Option<Vec<usize>>, sorted: bool) -> String {
+    const N: [&str; 3] = ["ct", "md", "st"];
+    match o {
+        None => "der".into(),
+        Some(p) => format!("{}{}", p.iter().map(|i| N[*i]).collect::<Vec<_>>().join("-"), if sorted { "(=der)" } else { "" }),
+    }
+}
+
+fn case_json(w: &World, c: &Case, b: &Built) -> Value {
+    json!({
+        "kind": c.kind.name(),
+        "strict": c.strict,
+        "coverage_relation": c.rel,
+        "coverage_ok": c.cov_ok,
+        "attr_order": order_label(&c.order, b.sorted),
+        "signed_attrs_len": b.attrs_len,
+        "signed_der_sorted_instead_of_emitted": c.sign_der,
+        "tamper": format!("{:?}", c.tamper),
+        "ber": c.ber.describe(),
+        "eval": format!("{:?}", c.eval),
+        "ee": format!("{:?}", c.ee),
+        "wall_clock_now": w.now,
+        "object": hex(&b.bytes),
+    })
+}
+
+/// Which time the library will use for the EE certificate in this case.
+fn eval_time(w: &World, c: &Case) -> i64 {
+    match c.eval {
+        Eval::At(t) => t,
+        Eval::Process { .. } => w.now,
+    }
+}
+
+/// Executes one case and applies the oracle. Returns whether the library accepted.
+fn run_case(ctx: &mut Ctx, w: &mut World, c: &Case) -> Option<bool> {
+    let b = build(w, c);
+    let t = eval_time(w, c);
+    let ee_viol = w.ee_violation(&c.ee, t);
+    let crl_ok = !matches!(c.eval, Eval::Process { crl_ok: false });
+    let violated: Option<String> = if c.tamper != Tamper::None {
+        Some(format!("{:?}", c.tamper))
+    } else if let Some(v) = ee_viol {
+        Some(v.into())
+    } else if !c.cov_ok {
+        Some(format!("uncovered:{}", c.rel))
+    } else if !crl_ok {
+        Some("crl-callback-err".into())
+    } else {
+        None
+    };
+    let expected = violated.is_none();
+    let seen = evaluate(ctx, w, c.kind, &b.bytes, c.strict, c.eval, &c.ee)?;
+    ctx.eval();
+    let cls = cms::size_class(b.attrs_len);
+    let ord = order_label(&c.order, b.sorted);
+    let mode = if c.strict { "strict" } else { "relaxed" };
+    let vio = violated.clone().unwrap_or_else(|| "none".into());
+    ctx.sig(&format!(
+        "{} order={} attrs{} {} violated={} cov={} ber={}{}",
+        c.kind.name(),
+        ord,
+        cls,
+        mode,
+        vio,
+        c.rel,
+        c.ber.describe(),
+        if c.sign_der { " signed-der" } else { "" }
+    ));
+    ctx.obs(if seen.accepted { "accepted" } else { "rejected" }, 1);
+    if !seen.decoded {
+        ctx.obs("rejected_at_decode", 1);
+    }
+    ctx.obs_max("signed_attrs_len", b.attrs_len as u64);
+    ctx.obs(&format!("objects_attrs{}", cls), 1);
+    if seen.accepted {
+        ctx.obs(&format!("accepted_attrs{}", cls), 1);
+    }
+    // the CRL callback must see the embedded EE certificate
+    if seen.crl_calls > 0 {
+        ctx.obs("crl_callback_called", 1);
+        if !seen.crl_cert_is_ee {
+            ctx.violation(
+                "C02:crl-callback-got-other-cert",
+                "the CRL callback was called with something else than the embedded EE certificate",
+                case_json(w, c, &b),
+            );
+        }
+        if seen.crl_calls > 1 {
+            ctx.obs("crl_callback_called_more_than_once", 1);
+        }
+    }
+    if seen.accepted && matches!(c.eval, Eval::Process { .. }) && seen.crl_calls == 0 {
+        ctx.violation(
+            "C02:accepted-without-crl-callback",
+            "process() returned Ok without consulting the CRL callback",
+            case_json(w, c, &b),
+        );
+    }
+    if !c.assert_outcome {
+        ctx.obs(&format!("recorded:{}:{}", c.why_recorded, if seen.accepted { "accepted" } else { "rejected" }), 1);
+        ctx.sample("e:recorded", || {
+            json!({"why_not_asserted": c.why_recorded, "kind": c.kind.name(), "strict": c.strict, "tamper": format!("{:?}", c.tamper), "order": ord, "ber": c.ber.describe(),
+                   "observed": if seen.accepted { "accepted".to_string() } else { format!("rejected: {}", seen.err) }})
+        });
+        return Some(seen.accepted);
+    }
+    if expected && !seen.accepted {
+        // what is special about this valid object, most specific first
+        let what = if b.attrs_len >= 128 {
+            format!("signed-attrs{}", cls)
+        } else if !c.ber.is_der() {
+            format!("ber:{}", c.ber.describe())
+        } else if !b.sorted {
+            format!("attr-order:{}", ord)
+        } else if c.rel != "n/a" {
+            format!("{}:{}", c.kind.name(), c.rel)
+        } else {
+            format!("{}:{:?}", c.kind.name(), c.eval).replace(char::is_numeric, "")
+        };
+        let mut d = case_json(w, c, &b);
+        d["observed_error"] = json!(seen.err);
+        d["decoded"] = json!(seen.decoded);
+        ctx.violation(
+            &format!("C02:valid-rejected:{}", what),
+            &format!("a {} meeting every condition of the statement was rejected in {} mode: {}", c.kind.name(), mode, seen.err),
+            d,
+        );
+    } else if !expected && seen.accepted {
+        let v = vio.clone();
+        ctx.violation(
+            &format!("C02:invalid-accepted:{}", v),
+            &format!("a {} violating exactly one condition ({}) was accepted in {} mode", c.kind.name(), vio, mode),
+            case_json(w, c, &b),
+        );
+    }
+    let skind = if expected { format!("a:valid:{}", c.kind.name()) } else { format!("b:violation:{}", violation_category(&vio)) };
+    if ctx.wants_sample(&skind) {
+        ctx.sample(&skind, || {
+            json!({"kind": c.kind.name(), "strict": c.strict, "coverage": c.rel, "order": ord, "signed_attrs_len": b.attrs_len, "ber": c.ber.describe(),
+                   "violated": vio, "expected": if expected { "accept" } else { "reject" },
+                   "observed": if seen.accepted { "accepted".to_string() } else { format!("rejected: {}", seen.err) },
+                   "object_len": b.bytes.len(), "object_head": hex(&b.bytes[..b.bytes.len().min(48)])})
+        });
+    }
+    Some(seen.accepted)
+}
+
+//------------ EE shapes -----------------------------------------------------
+
+fn ee_base(key: usize, now_based: Option<i64>) -> EeSpec {
+    let (nb, na) = match now_based {
+        Some(now) => (now - 30 * 86_400, now + 365 * 86_400),
+        None => (T_NB, T_NA),
+    };
+    EeSpec { key, signer: 0, aki: 0, trim: false, v4: Res::Missing, v6: Res::Missing, asn: Res::Missing, nb, na }
+}
+
+fn ee_inherit(key: usize, now_based: Option<i64>) -> EeSpec {
+    EeSpec { v4: Res::Inherit, v6: Res::Inherit, asn: Res::Inherit, ..ee_base(key, now_based) }
+}
+
+fn std_v4() -> Vec<(u128, u128)> {
+    vec![v4r(a4(10, 1, 0, 0), a4(10, 1, 255, 255)), v4r(a4(172, 16, 5, 0), a4(172, 16, 6, 255))]
+}
+
+fn std_v6() -> Vec<(u128, u128)> {
+    vec![v6p(V6_DOC | (1u128 << 80), 48)]
+}
+
+fn ee_roa_std(key: usize, now: i64) -> EeSpec {
+    EeSpec { v4: Res::Blocks(std_v4()), v6: Res::Blocks(std_v6()), ..ee_base(key, Some(now)) }
+}
+
+fn ee_roa_trim(key: usize, now: i64) -> EeSpec {
+    // claims 10.0.0.0/8 and 2001:db8::/31; the issuer holds 10.0.0.0/9 and 2001:db8::/32
+    EeSpec {
+        trim: true,
+        v4: Res::Blocks(vec![v4r(a4(10, 0, 0, 0), a4(10, 255, 255, 255))]),
+        v6: Res::Blocks(vec![v6p(V6_DOC, 31)]),
+        ..ee_base(key, Some(now))
+    }
+}
+
+fn ee_aspa_std(key: usize, now: i64) -> EeSpec {
+    EeSpec { asn: Res::Blocks(vec![asr(64500, 64505), asr(65540, 65540)]), ..ee_base(key, Some(now)) }
+}
+
+fn ee_aspa_trim(key: usize, now: i64) -> EeSpec {
+    EeSpec { trim: true, asn: Res::Blocks(vec![asr(64490, 64520)]), ..ee_base(key, Some(now)) }
+}
+
+//------------ content generators -------------------------------------------
+
+fn p4(a: u8, b: u8, c: u8, d: u8, len: u8) -> Pfx {
+    Pfx::v4(a4(a, b, c, d), len)
+}
+
+fn roa_cov(w: &World, ee: &EeSpec, fams: &[RoaFamily]) -> bool {
+    let Some((v4, v6, _)) = w.validated(ee) else { return true };
+    for f in fams {
+        let set = if f.afi == [0, 1] { &v4 } else { &v6 };
+        for (p, _) in &f.addrs {
+            if !set.contains_range(p.min(), p.max()) {
+                return false;
+            }
+        }
+    }
+    true
+}
+
+fn roa_case(w: &World, ee: EeSpec, rel: &str, fams: Vec<RoaFamily>, asn: u32) -> Case {
+    let cov = roa_cov(w, &ee, &fams);
+    let mut c = Case::new(Kind::Roa, ee, der::oid(der::OID_CT_ROA), cms::roa_econtent(asn, &fams, false), Eval::Process { crl_ok: true });
+    c.cov_ok = cov;
+    c.rel = rel.into();
+    c
+}
+
+fn roa_table(w: &World, key: usize) -> Vec<Case> {
+    let now = w.now;
+    let std = ee_roa_std(key, now);
+    let trim = ee_roa_trim(key, now);
+    let v6b = V6_DOC | (1u128 << 80); // 2001:db8:1::
+    let one4 = |p: Pfx, ml: Option<u8>| vec![RoaFamily::v4(vec![(p, ml)])];
+    let one6 = |p: Pfx, ml: Option<u8>| vec![RoaFamily::v6(vec![(p, ml)])];
+    let mut t: Vec<(EeSpec, &str, Vec<RoaFamily>)> = vec![
+        (std.clone(), "v4-inside", one4(p4(10, 1, 2, 0, 24), None)),
+        (std.clone(), "v4-equal-block", one4(p4(10, 1, 0, 0, 16), Some(24))),
+        (std.clone(), "v4-low-edge", one4(p4(10, 1, 0, 0, 24), Some(24))),
+        (std.clone(), "v4-high-edge", one4(p4(10, 1, 255, 0, 24), Some(32))),
+        (std.clone(), "v4-last-host", one4(p4(10, 1, 255, 255, 32), None)),
+        (std.clone(), "v4-first-host", one4(p4(10, 1, 0, 0, 32), None)),
+        (std.clone(), "v4-one-bit-shorter", one4(p4(10, 0, 0, 0, 15), None)),
+        (std.clone(), "v4-below-by-one", one4(p4(10, 0, 255, 255, 32), None)),
+        (std.clone(), "v4-below-adjacent-24", one4(p4(10, 0, 255, 0, 24), None)),
+        (std.clone(), "v4-above-by-one", one4(p4(10, 2, 0, 0, 32), None)),
+        (std.clone(), "v4-above-adjacent-24", one4(p4(10, 2, 0, 0, 24), Some(25))),
+        (std.clone(), "v4-range-first-24", one4(p4(172, 16, 5, 0, 24), None)),
+        (std.clone(), "v4-range-last-24", one4(p4(172, 16, 6, 0, 24), None)),
+        (std.clone(), "v4-range-inner-25", one4(p4(172, 16, 5, 128, 25), None)),
+        (std.clone(), "v4-range-below-24", one4(p4(172, 16, 4, 0, 24), None)),
+        (std.clone(), "v4-range-above-24", one4(p4(172, 16, 7, 0, 24), None)),
+        (std.clone(), "v4-range-straddle-low-23", one4(p4(172, 16, 4, 0, 23), None)),
+        (std.clone(), "v4-range-straddle-high-23", one4(p4(172, 16, 6, 0, 23), None)),
+        (std.clone(), "v4-range-superset-22", one4(p4(172, 16, 4, 0, 22), None)),
+        (std.clone(), "v4-zero-length", one4(p4(0, 0, 0, 0, 0), None)),
+        (std.clone(), "v4-many-all-inside", vec![RoaFamily::v4(vec![(p4(10, 1, 1, 0, 24), None), (p4(172, 16, 5, 0, 24), Some(28)), (p4(10, 1, 128, 0, 17), None)])]),
+        (std.clone(), "v4-many-last-outside", vec![RoaFamily::v4(vec![(p4(10, 1, 1, 0, 24), None), (p4(172, 16, 5, 0, 24), None), (p4(10, 2, 0, 0, 24), None)])]),
+        (std.clone(), "v4-many-first-outside", vec![RoaFamily::v4(vec![(p4(10, 0, 255, 0, 24), None), (p4(10, 1, 1, 0, 24), None)])]),
+        (std.clone(), "v6-equal-block", one6(Pfx::v6(v6b, 48), Some(64))),
+        (std.clone(), "v6-inside", one6(Pfx::v6(v6b | (0x8000u128 << 64), 49), None)),
+        (std.clone(), "v6-last-host", one6(Pfx::v6(v6b | ((1u128 << 80) - 1), 128), None)),
+        (std.clone(), "v6-one-bit-shorter", one6(Pfx::v6(V6_DOC, 47), None)),
+        (std.clone(), "v6-above-adjacent-48", one6(Pfx::v6(V6_DOC | (2u128 << 80), 48), None)),
+        (std.clone(), "v6-below-adjacent-64", one6(Pfx::v6(V6_DOC | (0xffffu128 << 64), 64), None)),
+        (std.clone(), "v6-above-by-one", one6(Pfx::v6(V6_DOC | (2u128 << 80), 128), None)),
+        (std.clone(), "both-inside", vec![RoaFamily::v4(vec![(p4(10, 1, 2, 0, 24), None)]), RoaFamily::v6(vec![(Pfx::v6(v6b, 48), None)])]),
+        (std.clone(), "v4-inside-v6-outside", vec![RoaFamily::v4(vec![(p4(10, 1, 2, 0, 24), None)]), RoaFamily::v6(vec![(Pfx::v6(V6_DOC | (2u128 << 80), 48), None)])]),
+        (std.clone(), "v4-outside-v6-inside", vec![RoaFamily::v4(vec![(p4(10, 2, 0, 0, 24), None)]), RoaFamily::v6(vec![(Pfx::v6(v6b, 48), None)])]),
+        (std.clone(), "v6-first-then-v4-outside", vec![RoaFamily::v6(vec![(Pfx::v6(v6b, 48), None)]), RoaFamily::v4(vec![(p4(10, 2, 0, 0, 24), None)])]),
+        (EeSpec { v6: Res::Missing, ..std.clone() }, "v6-prefix-ee-without-v6", one6(Pfx::v6(v6b, 48), None)),
+        (EeSpec { v4: Res::Missing, ..std.clone() }, "v4-prefix-ee-without-v4", one4(p4(10, 1, 2, 0, 24), None)),
+        (EeSpec { v6: Res::Missing, ..std.clone() }, "v4-inside-ee-v4-only", one4(p4(10, 1, 2, 0, 24), None)),
+        (trim.clone(), "trim-v4-inside-validated", one4(p4(10, 64, 0, 0, 16), None)),
+        (trim.clone(), "trim-v4-equal-validated", one4(p4(10, 0, 0, 0, 9), None)),
+        (trim.clone(), "trim-v4-claimed-but-cut", one4(p4(10, 128, 0, 0, 16), None)),
+        (trim.clone(), "trim-v4-first-cut-address", one4(p4(10, 128, 0, 0, 32), None)),
+        (trim.clone(), "trim-v4-whole-claim", one4(p4(10, 0, 0, 0, 8), None)),
+        (trim.clone(), "trim-v6-inside-validated", one6(Pfx::v6(V6_DOC, 32), None)),
+        (trim.clone(), "trim-v6-claimed-but-cut", one6(Pfx::v6(V6_DOC | (1u128 << 96), 32), None)),
+    ];
+    // EE that overclaims under Refuse: the certificate itself is invalid
+    t.push((EeSpec { trim: false, ..trim.clone() }, "refuse-overclaiming-ee", one4(p4(10, 64, 0, 0, 16), None)));
+    t.into_iter().map(|(ee, rel, fams)| roa_case(w, ee, rel, fams, 64496)).collect()
+}
+
+/// A ROA whose single prefix is placed relative to a validated block by the rng.
+fn roa_random(w: &World, rng: &mut Rng, key: usize) -> Case {
+    let ee = if rng.chance(1, 3) { ee_roa_trim(key, w.now) } else { ee_roa_std(key, w.now) };
+    let (v4, v6, _) = w.validated(&ee).unwrap();
+    let is_v4 = rng.bool();
+    let set = if is_v4 { &v4 } else { &v6 };
+    let fam_bits: u8 = if is_v4 { 32 } else { 128 };
+    let (lo, hi) = *rng.pick(&set.iv);
+    let host_bits: u32 = if is_v4 { 96 } else { 0 };
+    let unit: u128 = 1u128 << host_bits;
+    let place = rng.below(6);
+    let len: u8 = rng.range(if is_v4 { 8 } else { 16 }, fam_bits as u64) as u8;
+    let span = (hi - lo) / unit; // number of family addresses - 1
+    let off = if span == 0 { 0 } else { rng.next_u128() % (span + 1) };
+    let addr = match place {
+        0 => lo,
+        1 => hi,
+        2 => lo.wrapping_sub(unit),
+        3 => hi.wrapping_add(unit),
+        _ => lo + off * unit,
+    };
+    let p = Pfx { addr, len };
+    let p = Pfx { addr: p.min(), len };
+    let rel = format!(
+        "random-{}-{}",
+        if is_v4 { "v4" } else { "v6" },
+        match place {
+            0 => "at-block-start",
+            1 => "at-block-end",
+            2 => "just-below",
+            3 => "just-above",
+            _ => "inside-somewhere",
+        }
+    );
+    let ml = if rng.bool() { Some(rng.range(len as u64, fam_bits as u64) as u8) } else { None };
+    let fams = if is_v4 { vec![RoaFamily::v4(vec![(p, ml)])] } else { vec![RoaFamily::v6(vec![(p, ml)])] };
+    roa_case(w, ee, &rel, fams, rng.next_u32())
+}
+
+fn aspa_case(w: &World, ee: EeSpec, rel: &str, customer: u32, providers: &[u32]) -> Case {
+    let cov = match w.validated(&ee) {
+        None => true,
+        Some((_, _, asn)) => asn.contains(customer as u128) && ee.asn != Res::Inherit && ee.v4 == Res::Missing && ee.v6 == Res::Missing,
+    };
+    let mut c = Case::new(Kind::Aspa, ee, der::oid(der::OID_CT_ASPA), cms::aspa_econtent(customer, providers), Eval::Process { crl_ok: true });
+    c.cov_ok = cov;
+    c.rel = rel.into();
+    c
+}
+
+fn aspa_table(w: &World, key: usize) -> Vec<Case> {
+    let now = w.now;
+    let std = ee_aspa_std(key, now);
+    let trim = ee_aspa_trim(key, now);
+    let provs: &[u32] = &[64497, 65000, 4_200_000_000];
+    vec![
+        aspa_case(w, std.clone(), "customer-inside", 64502, provs),
+        aspa_case(w, std.clone(), "customer-range-min", 64500, provs),
+        aspa_case(w, std.clone(), "customer-range-max", 64505, &[1]),
+        aspa_case(w, std.clone(), "customer-below-by-one", 64499, provs),
+        aspa_case(w, std.clone(), "customer-above-by-one", 64506, provs),
+        aspa_case(w, std.clone(), "customer-single-id", 65540, provs),
+        aspa_case(w, std.clone(), "customer-single-id-minus-one", 65539, provs),
+        aspa_case(w, std.clone(), "customer-single-id-plus-one", 65541, provs),
+        aspa_case(w, std.clone(), "customer-zero", 0, provs),
+        aspa_case(w, std.clone(), "customer-max", u32::MAX, provs),
+        aspa_case(w, trim.clone(), "trim-customer-validated-min", 64496, provs),
+        aspa_case(w, trim.clone(), "trim-customer-validated-max", 64511, provs),
+        aspa_case(w, trim.clone(), "trim-customer-claimed-but-cut-low", 64495, provs),
+        aspa_case(w, trim.clone(), "trim-customer-claimed-but-cut-high", 64512, provs),
+        aspa_case(w, EeSpec { trim: false, ..trim.clone() }, "refuse-overclaiming-ee", 64500, provs),
+        aspa_case(w, EeSpec { v4: Res::Blocks(vec![v4r(a4(10, 1, 0, 0), a4(10, 1, 255, 255))]), ..std.clone() }, "ee-with-v4-resources", 64502, provs),
+        aspa_case(w, EeSpec { v6: Res::Blocks(std_v6()), ..std.clone() }, "ee-with-v6-resources", 64502, provs),
+        aspa_case(w, EeSpec { v4: Res::Inherit, ..std.clone() }, "ee-with-inherited-v4", 64502, provs),
+        aspa_case(w, EeSpec { asn: Res::Inherit, ..std.clone() }, "ee-with-inherited-as", 64500, provs),
+    ]
+}
+
+/// An ASPA whose customer is placed relative to a validated AS block by the rng.
+fn aspa_random(w: &World, rng: &mut Rng, key: usize) -> Case {
+    let ee = if rng.chance(1, 3) { ee_aspa_trim(key, w.now) } else { ee_aspa_std(key, w.now) };
+    let (_, _, asn) = w.validated(&ee).unwrap();
+    let (lo, hi) = *rng.pick(&asn.iv);
+    let place = rng.below(5);
+    let customer = match place {
+        0 => lo,
+        1 => hi,
+        2 => lo.wrapping_sub(1),
+        3 => hi + 1,
+        _ => lo + rng.next_u64() as u128 % (hi - lo + 1),
+    } as u32;
+    let n = 1 + rng.usize_below(6);
+    let mut provs: Vec<u32> = (0..n).map(|_| rng.next_u32()).filter(|p| *p != customer).collect();
+    provs.sort();
+    provs.dedup();
+    if provs.is_empty() {
+        provs.push(customer.wrapping_add(7));
+    }
+    let rel = format!("random-{}", ["at-block-start", "at-block-end", "just-below", "just-above", "inside-somewhere"][place as usize]);
+    aspa_case(w, ee, &rel, customer, &provs)
+}
+
+fn manifest_content(rng: &mut Rng, n: usize) -> Vec<u8> {
+    let exts = ["roa", "cer", "crl", "asa", "gbr"];
+    let entries: Vec<cms::MftEntry> = (0..n)
+        .map(|i| {
+            let name = format!("{}-{:x}_{}.{}", ["a", "Zz", "obj"][i % 3], rng.next_u32(), i, exts[i % exts.len()]);
+            cms::MftEntry::new(name.as_bytes(), &rng.bytes(32))
+        })
+        .collect();
+    cms::manifest_econtent(rng.range(0, u32::MAX as u64), T_IN - 3600, T_IN + 86_400, &entries)
+}
+
+fn manifest_case(rng: &mut Rng, key: usize, t: i64) -> Case {
+    let n = rng.usize_below(6);
+    Case::new(Kind::Manifest, ee_inherit(key, None), der::oid(der::OID_CT_MANIFEST), manifest_content(rng, n), Eval::At(t))
+}
+
+/// Content type OID whose length makes content-type + message-digest +
+/// signing-time exactly `total` octets long; None if that size cannot be hit.
+fn ct_for_total(total: usize, salt: u64) -> Option<Vec<u8>> {
+    let fixed = cms::attr_message_digest(&[0u8; 32]).len() + cms::attr_signing_time(T_IN).len();
+    let start = total.saturating_sub(fixed + 40).max(3);
+    for body in start..total {
+        let ct = cms::oid_with_body_len(body, salt);
+        let l = cms::attr_content_type(&ct).len() + fixed;
+        if l == total {
+            return Some(ct);
+        }
+        if l > total {
+            return None;
+        }
+    }
+    None
+}
+
+fn generic_case(rng: &mut Rng, key: usize, ct: Vec<u8>, t: i64) -> Case {
+    let n = rng.usize_below(200);
+    let ee = match rng.below(3) {
+        0 => ee_inherit(key, None),
+        1 => EeSpec { v4: Res::Blocks(std_v4()), asn: Res::Blocks(vec![asr(64500, 64505)]), ..ee_base(key, None) },
+        // overclaiming but under the Trim policy: the certificate stays valid
+        _ => EeSpec { trim: true, v4: Res::Blocks(vec![v4r(a4(10, 0, 0, 0), a4(10, 255, 255, 255))]), ..ee_base(key, None) },
+    };
+    Case::new(Kind::Generic, ee, ct, rng.bytes(n), Eval::At(t))
+}
+
+fn short_generic_ct(rng: &mut Rng) -> Vec<u8> {
+    match rng.below(3) {
+        0 => der::oid(der::OID_CT_GHOSTBUSTERS),
+        1 => cms::oid_with_body_len(3 + rng.usize_below(20), rng.next_u64()),
+        _ => der::oid(&[1, 3, 6, 1, 4, 1, 99_999, 1, rng.below(1000)]),
+    }
+}
+
+fn ber_variants() -> Vec<Ber> {
+    let d = Ber::default();
+    vec![
+        Ber { indef_content_info: true, ..d.clone() },
+        Ber { indef_content0: true, ..d.clone() },
+        Ber { indef_signed_data: true, ..d.clone() },
+        Ber { indef_encap: true, ..d.clone() },
+        Ber { indef_econtent0: true, ..d.clone() },
+        Ber { econtent_chunks: Some(vec![]), ..d.clone() },
+        Ber { econtent_chunks: Some(vec![1]), ..d.clone() },
+        Ber { econtent_chunks: Some(vec![0, 5, 0]), ..d.clone() },
+        Ber { econtent_chunks: Some(vec![7; 12]), econtent_indef: true, ..d.clone() },
+        Ber { indef_certs: true, ..d.clone() },
+        Ber { indef_signer_infos: true, ..d.clone() },
+        Ber { indef_signer_info: true, ..d.clone() },
+        Ber { pad_outer: 4, ..d.clone() },
+        Ber { pad_signed_data: 3, ..d.clone() },
+        Ber { pad_signature: 3, ..d.clone() },
+        Ber {
+            indef_content_info: true,
+            indef_content0: true,
+            indef_signed_data: true,
+            indef_encap: true,
+            indef_econtent0: true,
+            econtent_chunks: Some(vec![3, 3]),
+            econtent_indef: true,
+            indef_certs: true,
+            indef_signer_infos: true,
+            indef_signer_info: true,
+            ..d.clone()
+        },
+    ]
+}
+
+/// A valid object of the given kind (`i` varies the shape).
+fn valid_of_kind(w: &World, rng: &mut Rng, kind: Kind, key: usize, i: usize) -> Case {
+    match kind {
+        Kind::Roa => {
+            let t = roa_table(w, key);
+            let ok: Vec<Case> = t.into_iter().filter(|c| c.cov_ok && w.ee_violation(&c.ee, w.now).is_none()).collect();
+            ok[i % ok.len()].clone()
+        }
+        Kind::Aspa => {
+            let t = aspa_table(w, key);
+            let ok: Vec<Case> = t.into_iter().filter(|c| c.cov_ok && w.ee_violation(&c.ee, w.now).is_none()).collect();
+            ok[i % ok.len()].clone()
+        }
+        Kind::Manifest => manifest_case(rng, key, T_IN),
+        Kind::Generic => {
+            let ct = short_generic_ct(rng);
+            generic_case(rng, key, ct, T_IN)
+        }
+    }
+}
+
+const KINDS: [Kind; 4] = [Kind::Roa, Kind::Aspa, Kind::Manifest, Kind::Generic];
+
+/// The structured case list of one round. Order matters only for tiny
+/// budgets (valgrind): the head is a cross-section of everything.
+fn round_cases(w: &World, rng: &mut Rng, round: u64, rich: bool) -> Vec<Case> {
+    let mut out: Vec<Case> = Vec::new();
+    let key = 1 + (round as usize % 2); // EE key 1 or 2; 3/4 are "other" keys, 5 a foreign issuer
+    let sizes: Vec<usize> = vec![127, 128, 129, 255, 256, 257, 126, 130, 200, 254, 258, 300, 400, 1000, 5000];
+
+    // ---- head: cross-section
+    for (i, k) in KINDS.iter().enumerate() {
+        let mut c = valid_of_kind(w, rng, *k, key, i);
+        c.strict = i % 2 == 0;
+        out.push(c);
+    }
+    for total in [127usize, 128, 256] {
+        if let Some(ct) = ct_for_total(total, round + 1) {
+            let mut c = generic_case(rng, key, ct, T_IN);
+            c.strict = total != 128;
+            c.rel = format!("attrs-total-{}", total);
+            out.push(c);
+        }
+    }
+    for (i, t) in [Tamper::DigestOfOtherContent, Tamper::SigOtherKey, Tamper::SigCtx0, Tamper::SidIssuerSki].iter().enumerate() {
+        let mut c = valid_of_kind(w, rng, KINDS[i % 4], key, i);
+        c.tamper = *t;
+        c.strict = i % 2 == 1;
+        out.push(c);
+    }
+    {
+        let mut c = valid_of_kind(w, rng, Kind::Generic, key, 0);
+        c.ee = EeSpec { nb: T_NB, na: T_IN - 1, ..c.ee };
+        out.push(c);
+        let mut c = valid_of_kind(w, rng, Kind::Roa, key, 0);
+        c.ee = EeSpec { signer: 5, aki: 5, ..c.ee };
+        out.push(c);
+        let mut c = valid_of_kind(w, rng, Kind::Roa, key, 1);
+        c.strict = false;
+        c.ber = ber_variants().pop().unwrap();
+        out.push(c);
+        let t = roa_table(w, key);
+        out.push(t.iter().find(|c| c.rel == "v4-above-by-one").unwrap().clone());
+        let t = aspa_table(w, key);
+        out.push(t.iter().find(|c| c.rel == "customer-above-by-one").unwrap().clone());
+        let mut c = valid_of_kind(w, rng, Kind::Aspa, key, 0);
+        c.eval = Eval::Process { crl_ok: false };
+        out.push(c);
+    }
+
+    // ---- coverage matrices, strict and relaxed
+    for strict in [true, false] {
+        for mut c in roa_table(w, key) {
+            c.strict = strict;
+            out.push(c);
+        }
+        for mut c in aspa_table(w, key) {
+            c.strict = strict;
+            out.push(c);
+        }
+    }
+    // ROA with an inherit EE: RFC 9582 forbids it, the statement only speaks of
+    // "validated resources" — recorded
+    for strict in [true, false] {
+        let mut c = roa_case(
+            w,
+            EeSpec { v4: Res::Inherit, v6: Res::Inherit, ..ee_base(key, Some(w.now)) },
+            "ee-inherits-ip",
+            vec![RoaFamily::v4(vec![(p4(10, 1, 2, 0, 24), None)])],
+            64496,
+        );
+        c.strict = strict;
+        c.assert_outcome = false;
+        c.why_recorded = "roa-ee-inherit";
+        out.push(c);
+    }
+    // explicit DEFAULT version in the ROA content (not DER): recorded
+    {
+        let fams = vec![RoaFamily::v4(vec![(p4(10, 1, 2, 0, 24), None)])];
+        let mut c = roa_case(w, ee_roa_std(key, w.now), "v4-inside", fams.clone(), 64496);
+        c.content = cms::roa_econtent(64496, &fams, true);
+        c.assert_outcome = false;
+        c.why_recorded = "roa-explicit-default-version";
+        out.push(c);
+    }
+    for _ in 0..(if rich { 160 } else { 24 }) {
+        let mut c = roa_random(w, rng, key);
+        c.strict = rng.bool();
+        out.push(c);
+    }
+    for _ in 0..(if rich { 80 } else { 12 }) {
+        let mut c = aspa_random(w, rng, key);
+        c.strict = rng.bool();
+        out.push(c);
+    }
+
+    // ---- attribute orders: all permutations, both signature conventions
+    for (ki, k) in KINDS.iter().enumerate() {
+        for (pi, p) in cms::permutations(3).into_iter().enumerate() {
+            for strict in [true, false] {
+                let mut c = valid_of_kind(w, rng, *k, key, ki + pi);
+                c.order = Some(p.clone());
+                c.strict = strict;
+                out.push(c);
+            }
+        }
+    }
+
+    // ---- signed-attribute sizes (the content type OID is the only legal knob)
+    for (i, total) in sizes.iter().enumerate() {
+        if let Some(ct) = ct_for_total(*total, round * 31 + i as u64) {
+            for strict in [true, false] {
+                let mut c = generic_case(rng, key, ct.clone(), T_IN);
+                c.strict = strict;
+                c.rel = format!("attrs-total-{}", total);
+                out.push(c);
+            }
+        }
+    }
+    for _ in 0..(if rich { 60 } else { 10 }) {
+        let body = 3 + rng.usize_below(400);
+        let ct = cms::oid_with_body_len(body, rng.next_u64());
+        let mut c = generic_case(rng, key, ct, T_IN);
+        c.strict = rng.bool();
+        c.rel = "attrs-random-size".into();
+        out.push(c);
+    }
+    // long attributes together with a permuted order / BER wrapper
+    for (i, total) in [128usize, 256].iter().enumerate() {
+        if let Some(ct) = ct_for_total(*total, 77 + round) {
+            let mut c = generic_case(rng, key, ct.clone(), T_IN);
+            c.strict = false;
+            c.ber = ber_variants()[i * 3].clone();
+            c.rel = format!("attrs-total-{}", total);
+            out.push(c);
+        }
+    }
+
+    // ---- single violations
+    for (ti, t) in ASSERTED_TAMPERS.iter().enumerate() {
+        for (ki, k) in KINDS.iter().enumerate() {
+            let mut c = valid_of_kind(w, rng, *k, key, ti + ki);
+            c.tamper = *t;
+            c.strict = (ti + ki) % 2 == 0;
+            out.push(c);
+        }
+    }
+    // a violation combined with long signed attributes (size branch must not open a door)
+    for t in [Tamper::DigestBitFlip, Tamper::SigOtherKey, Tamper::SigCtx0, Tamper::SidIssuerSki] {
+        for total in [128usize, 256] {
+            if let Some(ct) = ct_for_total(total, 5) {
+                let mut c = generic_case(rng, key, ct, T_IN);
+                c.tamper = t;
+                c.strict = total == 128;
+                c.rel = format!("attrs-total-{}", total);
+                out.push(c);
+            }
+        }
+    }
+    for (ti, t) in RECORDED_TAMPERS.iter().enumerate() {
+        for strict in [true, false] {
+            let mut c = valid_of_kind(w, rng, KINDS[ti % 4], key, ti);
+            c.tamper = *t;
+            c.strict = strict;
+            c.assert_outcome = false;
+            c.why_recorded = "outside-statement";
+            out.push(c);
+        }
+    }
+    // EE certificate violations
+    for (ki, k) in KINDS.iter().enumerate() {
+        let wall = matches!(k, Kind::Roa | Kind::Aspa);
+        let base = valid_of_kind(w, rng, *k, key, ki);
+        let (nb, na) = (base.ee.nb, base.ee.na);
+        let t = if wall { w.now } else { T_IN };
+        let variants: Vec<EeSpec> = vec![
+            EeSpec { nb, na: t - 86_400, ..base.ee.clone() },          // expired
+            EeSpec { nb: t + 86_400, na, ..base.ee.clone() },          // not yet valid
+            EeSpec { signer: 5, aki: 5, ..base.ee.clone() },           // issued by somebody else
+            EeSpec { signer: 5, aki: 0, ..base.ee.clone() },           // names the issuer, signed by somebody else
+            EeSpec { signer: base.ee.key, aki: 0, ..base.ee.clone() }, // names the issuer, self-signed
+        ];
+        for (vi, ee) in variants.into_iter().enumerate() {
+            let mut c = base.clone();
+            c.ee = ee;
+            c.strict = (vi + ki) % 2 == 0;
+            out.push(c);
+        }
+    }
+    // overclaim under Refuse for generic / manifest
+    for k in [Kind::Generic, Kind::Manifest] {
+        let mut c = valid_of_kind(w, rng, k, key, 0);
+        c.ee = EeSpec { trim: false, v4: Res::Blocks(vec![v4r(a4(10, 0, 0, 0), a4(10, 128, 0, 0))]), v6: Res::Missing, asn: Res::Missing, ..c.ee };
+        c.rel = "ee-overclaims-by-one-address".into();
+        out.push(c);
+        let mut c = valid_of_kind(w, rng, k, key, 0);
+        c.ee = EeSpec { trim: false, asn: Res::Blocks(vec![asr(64496, 64512)]), v4: Res::Missing, v6: Res::Missing, ..c.ee };
+        c.rel = "ee-overclaims-by-one-asn".into();
+        out.push(c);
+        let mut c = valid_of_kind(w, rng, k, key, 0);
+        c.ee = EeSpec { trim: false, asn: Res::Blocks(vec![asr(64496, 64511)]), v4: Res::Blocks(vec![v4r(a4(10, 0, 0, 0), a4(10, 127, 255, 255))]), v6: Res::Missing, ..c.ee };
+        c.rel = "ee-claims-exactly-issuer-blocks".into();
+        out.push(c);
+    }
+
+    // ---- evaluation time against the EE window (validate_at paths)
+    for k in [Kind::Generic, Kind::Manifest] {
+        for (ti, t) in [T_NB - 1, T_NB, T_NB + 1, T_IN, T_NA - 1, T_NA, T_NA + 1].iter().enumerate() {
+            let mut c = valid_of_kind(w, rng, k, key, ti);
+            c.eval = Eval::At(*t);
+            c.strict = ti % 2 == 0;
+            c.rel = format!(
+                "time-{}",
+                ["before-notBefore-1s", "at-notBefore", "after-notBefore-1s", "inside", "before-notAfter-1s", "at-notAfter", "after-notAfter-1s"][ti]
+            );
+            out.push(c);
+        }
+    }
+
+    // ---- BER re-encodings: relaxed asserted, strict recorded
+    for (bi, ber) in ber_variants().into_iter().enumerate() {
+        for (ki, k) in KINDS.iter().enumerate() {
+            if (bi + ki) % 2 == 1 && round % 2 == 0 || (bi + ki) % 2 == 0 && round % 2 == 1 {
+                continue;
+            }
+            let mut c = valid_of_kind(w, rng, *k, key, bi + ki);
+            c.ber = ber.clone();
+            c.strict = false;
+            out.push(c.clone());
+            c.strict = true;
+            c.assert_outcome = false;
+            c.why_recorded = "ber-in-strict-mode";
+            out.push(c);
+        }
+    }
+
+    // ---- CRL callback
+    for k in [Kind::Roa, Kind::Aspa, Kind::Generic] {
+        for crl_ok in [true, false] {
+            for strict in [true, false] {
+                let mut c = valid_of_kind(w, rng, k, key, 2);
+                if k == Kind::Generic {
+                    c.ee = ee_inherit(key, Some(w.now));
+                }
+                c.eval = Eval::Process { crl_ok };
+                c.strict = strict;
+                out.push(c);
+            }
+        }
+        // an invalid object must stay rejected whatever the callback says
+        let mut c = valid_of_kind(w, rng, k, key, 3);
+        if k == Kind::Generic {
+            c.ee = ee_inherit(key, Some(w.now));
+        }
+        c.eval = Eval::Process { crl_ok: true };
+        c.tamper = Tamper::DigestBitFlip;
+        out.push(c);
+    }
+    out
+}
+
+/// Unsorted attribute orders: a correct implementation verifies either over
+/// the DER (sorted) re-encoding or over the octets as transmitted. The case is
+/// run under both signing conventions; in relaxed mode at least one must be
+/// accepted, everything else is recorded.
+fn run_unsorted(ctx: &mut Ctx, w: &mut World, c: &Case) {
+    let mut a = c.clone();
+    a.assert_outcome = false;
+    a.why_recorded = "unsorted-signed-as-emitted";
+    a.sign_der = false;
+    let mut b = c.clone();
+    b.assert_outcome = false;
+    b.why_recorded = "unsorted-signed-der-sorted";
+    b.sign_der = true;
+    let ra = run_case(ctx, w, &a);
+    let rb = run_case(ctx, w, &b);
+    if let (Some(ra), Some(rb)) = (ra, rb) {
+        if !c.strict && !ra && !rb {
+            let built = build(w, &a);
+            ctx.violation(
+                "C02:valid-rejected:relaxed:unsorted-attrs-under-both-signature-inputs",
+                "an object whose signed attributes are not in DER order was rejected in relaxed mode both when signed over the transmitted order and when signed over the DER order",
+                case_json(w, &a, &built),
+            );
+        }
+    }
+}
+
+//------------ bit flips ------------------------------------------------------
+
+fn flip_objects(w: &World, rng: &mut Rng) -> Vec<Case> {
+    let key = 1;
+    let mut v = vec![
+        valid_of_kind(w, rng, Kind::Roa, key, 0),
+        valid_of_kind(w, rng, Kind::Aspa, key, 0),
+        manifest_case(rng, key, T_IN),
+        generic_case(rng, key, der::oid(der::OID_CT_GHOSTBUSTERS), T_IN),
+    ];
+    for total in [200usize, 300] {
+        if let Some(ct) = ct_for_total(total, 3) {
+            let mut c = generic_case(rng, key, ct, T_IN);
+            c.rel = format!("attrs-total-{}", total);
+            v.push(c);
+        }
+    }
+    v
+}
+
+fn run_flips(ctx: &mut Ctx, w: &mut World, budget: u64, exhaustive: bool) {
+    let mut rng = ctx.rng("flip-objects");
+    let objs = flip_objects(w, &mut rng);
+    let mut rng = ctx.rng("flip-positions");
+    let per_obj = (budget / objs.len() as u64).max(8);
+    for (oi, c) in objs.iter().enumerate() {
+        let b = build(w, c);
+        let Some(layout) = cms::locate(&b.bytes) else {
+            ctx.notes.push(format!("flip object {} has an unexpected layout; skipped", oi));
+            continue;
+        };
+        let Some(base) = evaluate(ctx, w, c.kind, &b.bytes, false, c.eval, &c.ee) else { continue };
+        if !base.accepted {
+            // cannot say anything about tampering of an object that is not accepted in the first place
+            ctx.obs("flip_base_objects_not_accepted", 1);
+            ctx.notes.push(format!(
+                "bit flips skipped for base object {} ({}, signed attributes {} octets): the untouched object is rejected ({})",
+                oi,
+                c.kind.name(),
+                b.attrs_len,
+                base.err
+            ));
+            continue;
+        }
+        ctx.obs("flip_base_objects", 1);
+        let covered = layout.covered_positions();
+        let mut todo: Vec<(usize, u8)> = Vec::new();
+        if exhaustive {
+            // every bit of every covered octet, split over the shards
+            for (i, p) in covered.iter().enumerate() {
+                if ctx.mine(i as u64) {
+                    for bit in 0..8 {
+                        todo.push((*p, bit));
+                    }
+                }
+            }
+        } else {
+            // at least one flip in every region, then random covered positions
+            let mut seen: Vec<&str> = Vec::new();
+            for p in &covered {
+                let r = layout.region(*p).unwrap();
+                if !seen.contains(&r) {
+                    seen.push(r);
+                    todo.push((*p, rng.below(8) as u8));
+                }
+            }
+            while (todo.len() as u64) < per_obj {
+                todo.push((*rng.pick(&covered), rng.below(8) as u8));
+            }
+        }
+        let mut evals = 0u64;
+        for (pos, bit) in todo {
+            let region = layout.region(pos).unwrap();
+            let flipped = cms::flip(&b.bytes, pos, bit);
+            let strict = (pos + bit as usize) % 2 == 0;
+            let Some(seen) = evaluate(ctx, w, c.kind, &flipped, strict, c.eval, &c.ee) else { continue };
+            evals += 1;
+            ctx.obs(&format!("flip:{}:{}", region, if !seen.decoded { "undecodable" } else if seen.accepted { "accepted" } else { "rejected" }), 1);
+            if seen.accepted {
+                ctx.violation(
+                    &format!("C02:bit-flip-accepted:{}", region),
+                    &format!("a {} with one bit flipped inside {} (covered by digest or signature) was still accepted", c.kind.name(), region),
+                    json!({"kind": c.kind.name(), "byte": pos, "bit": bit, "region": region, "strict": strict, "original": hex(&b.bytes), "flipped": hex(&flipped), "wall_clock_now": w.now}),
+                );
+            }
+            if !exhaustive || (pos % 16 == 0 && bit == 0) {
+                ctx.sig(&format!("flip {} region={} decoded={}", c.kind.name(), region, seen.decoded));
+            }
+            ctx.sample("d:flip:covered", || {
+                json!({"kind": c.kind.name(), "byte": pos, "bit": bit, "region": region, "strict": strict,
+                       "observed": if seen.accepted { "accepted".to_string() } else { format!("rejected: {}", seen.err) }})
+            });
+        }
+        // uncovered positions: outcome only recorded
+        let uncovered: Vec<usize> = (0..layout.total).filter(|p| layout.region(*p).is_none()).collect();
+        let n_unc = if exhaustive { uncovered.len().min(40) } else { 12 };
+        for _ in 0..n_unc {
+            if uncovered.is_empty() {
+                break;
+            }
+            let pos = *rng.pick(&uncovered);
+            let bit = rng.below(8) as u8;
+            let flipped = cms::flip(&b.bytes, pos, bit);
+            if let Some(seen) = evaluate(ctx, w, c.kind, &flipped, false, c.eval, &c.ee) {
+                evals += 1;
+                ctx.obs(&format!("flip:uncovered:{}", if seen.accepted { "accepted" } else { "rejected" }), 1);
+                if seen.accepted {
+                    ctx.sample("d:flip:uncovered-accepted", || json!({"kind": c.kind.name(), "byte": pos, "bit": bit, "note": "position not covered by digest or signature; recorded only"}));
+                }
+            }
+        }
+        ctx.evals(evals);
+    }
+}
+
+//------------ driver ---------------------------------------------------------
 
 pub fn run(ctx: &mut Ctx) {
-    ctx.notes.push("C02: monitor not built yet".into());
+    if ctx.no_ffi() {
+        ctx.notes.push("C02 needs aws-lc (signatures, digests); nothing to do under Miri".into());
+        return;
+    }
+    let mut w = World::new();
+    let thorough = ctx.tier == Tier::Thorough;
+    let objects = ctx.stage_budget((12_000, 400_000), if thorough { 12_000 } else { 2_000 }, 0, 80);
+    let mut rng = ctx.rng("cases");
+    let mut done = 0u64;
+    let mut g = 0u64;
+    let mut round = 0u64;
+    'outer: loop {
+        let cases = round_cases(&w, &mut rng, round, ctx.tier == Tier::Thorough && ctx.stage == Stage::Native);
+        for c in cases {
+            let mine = ctx.mine(g);
+            g += 1;
+            if !mine {
+                continue;
+            }
+            let unsorted = c.order.is_some() && !build_is_sorted(&c);
+            if unsorted && c.tamper == Tamper::None {
+                run_unsorted(ctx, &mut w, &c);
+                done += 2;
+            } else {
+                run_case(ctx, &mut w, &c);
+                done += 1;
+            }
+            if done >= objects {
+                break 'outer;
+            }
+        }
+        round += 1;
+        if round > 10_000 {
+            break;
+        }
+    }
+    ctx.obs("rounds_started", round + 1);
+    // bit flips
+    let exhaustive = ctx.tier == Tier::Thorough && ctx.stage == Stage::Native;
+    let flips = ctx.stage_budget((12_000, 0), if thorough { 16_000 } else { 3_000 }, 0, 1_600);
+    run_flips(ctx, &mut w, flips, exhaustive);
+    ctx.obs("ee_certificates_issued", w.ee_built);
+    ctx.obs("signatures_by_pool_signer", w.pool.signatures.get());
+}
+
+/// Whether the emitted attribute order of a case happens to be the DER order.
+fn build_is_sorted(c: &Case) -> bool {
+    let base = [cms::attr_content_type(&c.ct), cms::attr_message_digest(&[0u8; 32]), cms::attr_signing_time(T_IN)];
+    match &c.order {
+        None => true,
+        Some(p) => {
+            let v: Vec<Vec<u8>> = p.iter().map(|i| base[*i].clone()).collect();
+            cms::attrs_sorted(&v)
+        }
+    }
 }
